@@ -68,7 +68,7 @@ QUICK_LEXER = {
 }
 QUICK_SCANNER = {
     "data_state": "C01,C09", "tag_name_state": "C01,C06,C09",
-    "markup_declaration_open_state": "C02,C09", "cdata_section_bracket_state": "C02", "script_data_escaped_state": "C02",
+    "markup_declaration_open_state": "C02,C09", "cdata_section_bracket_state": "C02", "script_data_escaped_state": "C02,C09,C15",
     "rcdata_end_tag_name_state": "C03,C06,C09", "script_data_escaped_end_tag_name_state": "C03,C09",
     "tag_open_state": "C09", "end_tag_open_state": "C09", "bogus_comment_state": "C09", "comment_state": "C09",
     "script_data_double_escaped_state": "C09", "script_data_double_escaped_less_than_sign_state": "C09", "rcdata_state": "C09",
